@@ -86,9 +86,9 @@ CHECKS["C19"]["fuzz"] = [("FuzzC19Decode", 150)]
 CHECKS["C11"]["fuzz"] = [("FuzzC11", 240)]
 CHECKS["C17"] = {
     "custom": "c17",
-    "rule": "case = one configuration of the real simulation binary built from the working tree (-count 1..7, -watchers 0..3, -txblock 0..3, -txcount in {0,1,3,100,2000}, GOMAXPROCS in {1,2,4,16}, 17-31 s of wall time; block interval is hard-coded to 5 s); the documented shape (4 validators + 1 watcher), a run whose transaction pools run dry after 1-3 blocks, a single-validator run (32-41 s), a run without transactions and a run with one blocked validator (-blocked k with k in 1..3 so that it is the speaker within the first 10 s, 4-7 validators, 32-41 s; the blocked node hears everybody and is judged like the others) are always included; "
+    "rule": "case = one configuration of the real simulation binary built from the working tree (-count 1..7, -watchers 0..3, -txblock 0..3, -txcount in {0,1,3,100,2000}, GOMAXPROCS in {1,2,4,16}, 17-31 s of wall time; block interval is hard-coded to 5 s); the documented shape (4 validators + 1 watcher), a run whose transaction pools run dry after 1-3 blocks, a single-validator run (32-41 s), a run without transactions and a run with one blocked validator (-blocked k with k in 1..3 so that it is the speaker within the first 10 s, 4-7 validators, 32-41 s; the blocked node hears everybody and is judged like the others) and a large committee (72-80 validators, 22 s, judged on a quorum: every height approved by at least M validators, because the example itself drops messages when a channel is full) are always included; "
             "oracle on its log: every validator and watcher approves consecutive heights 1..k with floor(D/5)-1 <= k <= floor(D/5)+2, one hash per height across nodes, no panic; non-trivial = count >= 2; distinct = distinct configurations",
-    "quick": {"runs": 6, "parallel": 6},
+    "quick": {"runs": 7, "parallel": 7},
     "thorough": {"runs": 16, "parallel": 4},
     "assumptions": ["goroutine schedules of the real program are sampled, not owned", "wall-clock based: bounds are one block of slack below and two above", "runs are isolated in network namespaces (the program binds localhost:6060) or serialised with a lock"],
 }
